@@ -363,7 +363,34 @@ def thread_fn(R, f):
             R.check(okf, "THREAD-FN", "each-node-invoked", where(f, rel[0]), "every released node's callback is invoked")
             # loop advances to the saved next
             nxt = [e for e in f.all_events() if e.kind == "access" and e.node["k"] == "var" and e.node["n"] == node and e.mode == "w"]
-            R.check(any(ev_dominates(f, cbs[0], n, dom) or ev_dominates(f, rel[0], n, dom) for n in nxt), "THREAD-FN", "atexit-loop-advances", where(f, rel[0]), "loop variable advanced to the saved next")
+            adv_var = any(ev_dominates(f, cbs[0], n, dom) or ev_dominates(f, rel[0], n, dom) for n in nxt)
+            # or: the chain head itself is advanced to the node's successor before the node is released (the node is then
+            # taken from the head on the next iteration)
+            adv_head = False
+            for hw in f.field_accesses(rec="thread_wrapper", field="atexit", modes=("w",)):
+                asg = None
+                for b_ in f.blocks.values():
+                    for el in b_.elems:
+                        for n_ in f.walk(el):
+                            if n_["k"] == "bin" and n_["op"] == "=" and f.d(n_["a"][0]) is hw.node:
+                                asg = n_
+                if asg is not None and f.show(f.d(asg["a"][1])) == "%s->next" % node and ev_dominates(f, hw, rel[0], dom) and f.show(hw.node["a"][0]) == copy:
+                    adv_head = True
+            R.check(adv_var or adv_head, "THREAD-FN", "atexit-loop-advances", where(f, rel[0]), "the loop advances to the node's saved successor (loop variable, or the chain head before the release)")
+        if cbs:
+            # registrations made by a callback while the chain is run belong to the thread as well: the loop takes every
+            # node from the live head (re-read and unlinked on each iteration), or registration is refused from then on
+            from sa.num import Num
+            body = None
+            for h, bd in Num(f, None, None).loops().items():
+                if cbs[0].blk in bd or cbs[0].blk == h:
+                    body = set(bd) | {h}
+            hd_r = [e for e in f.field_accesses(rec="thread_wrapper", field="atexit", modes=("r",)) if body and e.blk in body]
+            hd_w = [e for e in f.field_accesses(rec="thread_wrapper", field="atexit", modes=("w",)) if body and e.blk in body and ev_dominates(f, e, cbs[0], dom)]
+            refused = [t for t in tl if ev_dominates(f, t, cbs[0], dom) and ev_dominates(f, fc, t, dom)]
+            R.check(bool(body) and ((hd_r and hd_w) or refused), "THREAD-FN", "registrations-during-the-chain-run-are-run", where(f, cbs[0]),
+                    "each iteration takes the node from the live chain head and unlinks it before its callback runs (or tl_wrapper is cleared before the chain runs)",
+                    "the chain head is read once before the loop and tl_wrapper still points at the wrapper while callbacks run: aws_thread_current_at_exit called from an at-exit callback returns success, links its node to the consumed head, and the node is never run and never released")
     # wrapper_ptr: not used after destroy (correlated branches pruned); hand-over last
     for dsy in f.calls("s_thread_wrapper_destroy"):
         v = RU.arg(f, dsy.node, 0)
@@ -540,8 +567,11 @@ MUTANTS = [
     {"name": "no-decrement-on-create-failure", "file": TH, "expect": "LAUNCH",
      "old": "        if (is_managed_thread) {\n            aws_thread_decrement_unjoined_count();\n        }\n        goto cleanup;", "new": "        goto cleanup;"},
     {"name": "atexit-node-read-after-release", "file": TH, "expect": "THREAD-FN",
-     "old": "        struct thread_atexit_callback *next_exit_callback_data = exit_callback_data->next;\n\n        aws_mem_release(allocator, exit_callback_data);",
-     "new": "        aws_mem_release(allocator, exit_callback_data);\n        struct thread_atexit_callback *next_exit_callback_data = exit_callback_data->next;"},
+     "old": "        wrapper.atexit = exit_callback_data->next;\n\n        aws_mem_release(allocator, exit_callback_data);",
+     "new": "        aws_mem_release(allocator, exit_callback_data);\n        wrapper.atexit = exit_callback_data->next;"},
+    {"name": "atexit-head-read-once", "file": TH, "expect": "THREAD-FN",
+     "old": "    while (wrapper.atexit) {\n        struct thread_atexit_callback *exit_callback_data = wrapper.atexit;\n        aws_thread_atexit_fn *exit_callback = exit_callback_data->callback;\n        void *exit_callback_user_data = exit_callback_data->user_data;\n        wrapper.atexit = exit_callback_data->next;\n\n        aws_mem_release(allocator, exit_callback_data);\n\n        exit_callback(exit_callback_user_data);\n    }",
+     "new": "    struct thread_atexit_callback *exit_callback_data = wrapper.atexit;\n    while (exit_callback_data) {\n        aws_thread_atexit_fn *exit_callback = exit_callback_data->callback;\n        void *exit_callback_user_data = exit_callback_data->user_data;\n        struct thread_atexit_callback *next_exit_callback_data = exit_callback_data->next;\n\n        aws_mem_release(allocator, exit_callback_data);\n\n        exit_callback(exit_callback_user_data);\n        exit_callback_data = next_exit_callback_data;\n    }"},
     {"name": "atexit-from-heap-wrapper", "file": TH, "expect": "THREAD-FN",
      "old": "struct thread_atexit_callback *exit_callback_data = wrapper.atexit;", "new": "struct thread_atexit_callback *exit_callback_data = wrapper_ptr->atexit;"},
 ]
